@@ -228,6 +228,20 @@ package transport
 //@   ensures #every-option-applied-in-order result.1 == nil ==> optlog == old(optlog) ++ applied(options, box("*transport.TelnetArgs", result.0), len(options))
 //@   loop 1 invariant -1 <= rangeindex && rangeindex < len(options) && isnew(a) && a != nil
 //@   loop 1 invariant optlog == old(optlog) ++ applied(options, box("*transport.TelnetArgs", a), rangeindex + 1)
+// the implementation constructors: each takes over the arguments it is given and starts from its documented defaults
+// (the ssh binary is `ssh`, no replacement argv, no extra arguments / ciphers / key exchanges, nothing open yet)
+//@ func NewSystemTransport [C19 C14]
+//@   modifies alloc()
+//@   ensures #the-system-transport-starts-from-ssh-and-the-arguments-it-was-given result.1 == nil && fresh(result.0) && result.0.SSHArgs == a && result.0.OpenBin == "ssh" && len(result.0.OpenArgs) == 0 && len(result.0.ExtraArgs) == 0
+//@ func NewStandardTransport [C19 C14]
+//@   modifies alloc()
+//@   ensures #the-standard-transport-starts-from-the-arguments-it-was-given-and-no-extras result.1 == nil && fresh(result.0) && result.0.SSHArgs == s && len(result.0.ExtraCiphers) == 0 && len(result.0.ExtraKexs) == 0
+//@ func NewTelnetTransport [C19]
+//@   modifies alloc()
+//@   ensures #the-telnet-transport-starts-from-the-arguments-it-was-given-with-nothing-buffered result.1 == nil && fresh(result.0) && result.0.TelnetArgs == a && len(result.0.initialBuf) == 0
+//@ func NewFileTransport [C19]
+//@   modifies alloc()
+//@   ensures #the-file-transport-is-built result.1 == nil && fresh(result.0)
 // optT: ghost - the option log when NewTransport starts applying the options to the implementation
 //@ ghost optT []int
 //@ func NewTransport [C19]
